@@ -32,6 +32,7 @@ type LoopContract struct {
 	Decreases  *Clause
 	Ensures    []*Clause // "loop N ensures E": holds at the end of every iteration (at each back edge)
 	Ordered    *Clause   // "loop N ordered": must not be a range over a map
+	Over       *Clause // loop N over E: iteration domain
 }
 
 type Guarded struct {
@@ -287,6 +288,10 @@ func (cs *Contracts) loadFile(pkgPath, file string) error {
 				}
 				c := &Clause{Kind: parts[1], Text: parts[2], Expr: e, Props: props, Line: l, Loop: n}
 				switch parts[1] {
+				case "over":
+					// loop N over E: the loop ranges over exactly the value of E (its iteration domain)
+					c.Kind = "over"
+					lc.Over = c
 				case "invariant":
 					c.Ord = len(lc.Invariants) + 1
 					lc.Invariants = append(lc.Invariants, c)
